@@ -152,6 +152,9 @@ def shim_job(family, target, cc="g++", extra=()):
              "-I" + os.path.join(REPO, "include"), "-I" + os.path.join(VERIF, "shim")] + a["flags"] + list(extra)
     if a in archs():
         flags += ["-include", caps_header(target)]
+    if os.environ.get("XSV_COVERAGE") and cc == "g++":
+        # tools/coverage.py: line counts of the xsimd headers as executed by a check (never set by a registered command)
+        flags += ["--coverage", "-fprofile-update=atomic"]
     key = _key([tree_hash(), _hash_files(deps), " ".join(flags), compiler_id(cc), "shim"])
     d = os.path.join(CACHE, tree_hash())
     out = os.path.join(d, "shim_%s_%s_%s.so" % (family, target, key))
